@@ -51,6 +51,10 @@ def make_input(seed, k):
     pred, refa, f = gen.random_pair(seed, 60000 + k, dtype=np.uint8, max_inst=3, family=["shift", "split", "rects", "noise", "blobs"][k % 5])
     pred = np.minimum(pred, 3)
     refa = np.minimum(refa, 3)
+    if k % 6 == 4:
+        pred = np.zeros_like(pred)
+    elif k % 6 == 5:
+        refa = np.zeros_like(refa)
     return {
         "UNMATCHED_INSTANCE": (pred, refa),
         "SEMANTIC": (pred.astype([np.uint8, np.int16][k % 2]), refa.astype([np.uint8, np.int16][k % 2])),
